@@ -438,20 +438,26 @@ def Num.powInt (a : Num) (e : Int) (expIsInt : Bool) : Num :=
   | .int z, true, true => .int (z ^ e.toNat)
   | _, _, _ => .flt (a.toRat ^ e)
 
-/-- `^` = `math.POWER(number, power)`: both `XlNumber`-cast; 0 to a negative power is #DIV/0!, a
-    negative base with a fractional exponent is #NUM!, overflow is #NUM!. -/
+/-- `^` = `math.POWER(number, power)`: both `XlNumber`-cast, parameter by parameter; 0 to a negative
+    power is #DIV/0!, a negative base with a fractional exponent is #NUM!, overflow is #NUM!. -/
 def power (ext : Ext) (l r : S) : OpR :=
-  match firstErr l r with
+  -- `validate_args` goes through the two `XlNumber` parameters in order: an error argument is
+  -- returned, a failing cast is #VALUE!, and only then is the next parameter looked at.
+  match isErr l with
   | some c => .val (.err c)
   | Option.none =>
-    OpR.ofNum (toNumber ext l) fun a => OpR.ofNum (toNumber ext r) fun b =>
-      if a.toRat = 0 ∧ b.toRat < 0 then .val (.err .div0)
-      else if a.toRat < 0 ∧ ¬ Num.isIntegral b then .val (.err .num)
-      else if Num.isIntegral b then
-        .val (.num (Num.powInt a b.toRat.num (match b with | .int _ => true | .flt _ => false)))
-      else match ext.powFrac a.toRat b.toRat with
-        | some q => .val (.num (.flt q))
-        | Option.none => .val (.err .num)
+    OpR.ofNum (toNumber ext l) fun a =>
+      match isErr r with
+      | some c => .val (.err c)
+      | Option.none =>
+        OpR.ofNum (toNumber ext r) fun b =>
+          if a.toRat = 0 ∧ b.toRat < 0 then .val (.err .div0)
+          else if a.toRat < 0 ∧ ¬ Num.isIntegral b then .val (.err .num)
+          else if Num.isIntegral b then
+            .val (.num (Num.powInt a b.toRat.num (match b with | .int _ => true | .flt _ => false)))
+          else match ext.powFrac a.toRat b.toRat with
+            | some q => .val (.num (.flt q))
+            | Option.none => .val (.err .num)
 
 /-- `&` = `text.CONCAT(l, r)`: both operands `Text.cast` (an error operand is returned). -/
 def concat (ext : Ext) (l r : S) : OpR :=
